@@ -474,6 +474,8 @@ class Interp:
         self.memo = {}
         self.trace = bool(os.environ.get("MIRSYM_TRACE"))
         self.assumptions = []          # global facts about the symbolic inputs (z3 Bools)
+        self.definitions = []          # defining equations of named intermediate values (added to final queries only)
+        self.n_defs = 0
         self.no_merge = False          # pure path forking (used where merged states would need unions of maps)
         self.hash_order = None         # None: order-sensitive use of a HashMap iterator is unsupported; 'fwd'/'rev'/'rot': that order
         self.nondet_reads = []         # reads of process-specific values (pid, ...)
@@ -993,7 +995,9 @@ class Interp:
             return Adt("SystemTime", None, [0])
         # unit enum variants of known enums:  Option::<T>::None, ast::Test::True ...
         if len(names) >= 2 and names[-2] in self.P.enum_variants and names[-1] in self.P.enum_variants[names[-2]]:
-            # could also be a tuple-variant constructor used as a function: decided at call time
+            if (names[-2], names[-1]) in self.P.variant_has_fields and not self.P.variant_has_fields[(names[-2], names[-1])]:
+                return Adt(names[-2], names[-1], ())          # unit variant: a plain value
+            # a tuple-variant constructor used as a function (or an external unit variant): decided at use
             return VariantOrCtor(names[-2], names[-1], text)
         return FnItem(text)
 
@@ -1427,6 +1431,9 @@ class Interp:
         paths = []
         for s2, v in outs:
             if isinstance(v, Panic):
+                if ":bb" not in (v.site or ""):
+                    # a panic raised inside a modelled library function: name the calling site of the crate
+                    v = Panic(v.msg, "%s:bb%d (%s)" % (fn.name, bb, v.site))
                 paths.append((s2, v))
                 continue
             if t.target is None:
